@@ -150,9 +150,11 @@ closeLoop:
 }
 
 func (s *atpServerSession) runATPReadLoop() {
-	// The message is generic, so we must find the type and decode the full message next.
-	var runtimeMessage DecodedRuntimeMessage
 	for {
+		// The message is generic, so we must find the type and decode the full message next.
+		// A fresh value is needed for every message: decoding into a reused value would keep the fields of the
+		// previous message for every field the new message does not carry.
+		var runtimeMessage DecodedRuntimeMessage
 		// First, decode the message
 		// Note: This blocks. To abort early, close stdin.
 		if err := s.cborStdin.Decode(&runtimeMessage); err != nil {
